@@ -128,6 +128,7 @@ func (db *DB) processFollowers(stop <-chan interface{}) {
 	onFollowerJoined := func(f *follower) {
 		metrics.FollowerJoined(f.FollowerID)
 		db.log.Debugf("Follower %v joined starting at offset %v", f.FollowerID, f.EarliestOffset)
+		verifPoint(db, "", "follower-joined", nil)
 		followers[f.FollowerID] = f
 
 		partitions := streams[f.Stream]
@@ -303,11 +304,13 @@ func (db *DB) processFollowers(stop <-chan interface{}) {
 					continue
 				}
 				stopWALReaders[stream] = stopWALReader
+				verifPoint(db, stream, "follow-position", earliestOffsetByStream[stream])
 			}
 
 			if oldRequests != nil {
 				close(oldRequests)
 			}
+			verifPoint(db, "", "follower-joined-done", nil)
 
 		case result, ok := <-results:
 			if !ok {
@@ -350,9 +353,11 @@ func (db *DB) processFollowers(stop <-chan interface{}) {
 					// ignore failed followers
 					continue
 				}
+				verifPoint(db, f.FollowerID.String(), "follow-submit", entry.offset)
 				f.submit(entry)
 				stats[f.FollowerID]++
 			}
+			verifPoint(db, entry.stream, "follow-position", entry.offset)
 
 		case <-statsTicker.C:
 			printStats()
@@ -773,6 +778,7 @@ func (db *DB) doFollowLeaders(stream string, tables []*table, offsets []common.O
 			if newOffset.After(priorOffset) {
 				select {
 				case in <- &walRead{data, newOffset, source}:
+					verifPoint(db, tables[i].Name, "follow-handoff", newOffset)
 					offsetsBySource := offsets[i]
 					offsetsBySource[source] = newOffset
 					offsetsMx.Unlock()
